@@ -21,8 +21,8 @@ RULE = ('sources: valid images, crafted contents that make real parsers '
         'raise (VMDK bad version / descriptor location, VHDX bad region '
         'signature), zeros, random, as BytesIO with read-size sequences and '
         'as chunk iterators (empty chunks included). Fault plans: every '
-        'single fault (10 inspectors x every chunk index x 6 exception '
-        'classes) x expected_format in {None, each of the ten names} '
+        'single fault (10 inspectors x every chunk index x 9 exception '
+        'kinds, incl. message-less and oddly rendering ones) x expected_format in {None, each of the ten names} '
         'exhaustively on a fixed set of sources; multiple simultaneous '
         'faults, allowed_formats subsets and generated sources sampled with '
         'Hypothesis. Checked: bytes handed to the reader, calls reaching '
@@ -43,12 +43,39 @@ ASSUMPTIONS = [
 ]
 
 FAULTS = ('Exception', 'ValueError', 'struct.error', 'ImageFormatError',
-          'RuntimeError', 'MemoryError')
+          'RuntimeError', 'MemoryError',
+          # exception objects without a message / with odd renderings: the
+          # wrapper must not depend on str(e), truthiness or equality of e
+          'bare:ValueError', 'bare:Exception', 'custom:Quiet')
+
+
+class _Quiet(Exception):
+    """An exception whose rendering is empty and which compares equal to
+    everything (hostile to code that stores / compares exception values)."""
+
+    def __str__(self):
+        return ''
+
+    def __repr__(self):
+        return ''
+
+    def __eq__(self, other):
+        return True
+
+    def __hash__(self):
+        return 0
+
+    def __bool__(self):
+        return False
 NAMES = ('raw', 'qcow2', 'vhd', 'vhdx', 'vmdk', 'vdi', 'qed', 'iso', 'gpt',
          'luks')
 
 
 def _make_exc(kind, F):
+    if kind.startswith('bare:'):
+        return getattr(__import__('builtins'), kind[5:])()
+    if kind == 'custom:Quiet':
+        return _Quiet()
     if kind == 'struct.error':
         return struct.error('injected')
     if kind == 'ImageFormatError':
